@@ -240,7 +240,7 @@ where
 @            let ghost b0 = buf@;
 @            let ghost k0 = w.sink[key];
             match select_choice(3) {
-0 => { let _ = token.cancelled().await; reader.read_until_dropped(b'\n', &mut buf, Tracked(w));
+0 => { let _ = token.cancelled().await; reader.read_until_dropped(b'\n', &mut buf);
 @                    assert(k0 + flat(bufs@) + buf@ =~= s0 + reader.consumed) by { assert(k0 + flat(bufs@) + (b0 + read_chunk(b0, buf@)) =~= (k0 + flat(bufs@) + b0) + read_chunk(b0, buf@)); }
 @                    assert(reader.consumed + reader.rest =~= stream) by { assert((c0 + read_chunk(b0, buf@)) + reader.rest =~= c0 + (read_chunk(b0, buf@) + reader.rest)); }
                     if !buf.is_empty() {
@@ -250,7 +250,7 @@ where
                     }
                     process_bufs(&header, bufs, &compressor_client, &mut log_stream_client, true, Tracked(w)).await?;
                     return Err(MonorailError::TaskCancelled); }
-1 => { let res = reader.read_until(b'\n', &mut buf, Tracked(w)).await;
+1 => { let res = reader.read_until(b'\n', &mut buf).await;
 @                    assert(k0 + flat(bufs@) + buf@ =~= s0 + reader.consumed) by { assert(k0 + flat(bufs@) + (b0 + read_chunk(b0, buf@)) =~= (k0 + flat(bufs@) + b0) + read_chunk(b0, buf@)); }
 @                    assert(reader.consumed + reader.rest =~= stream) by { assert((c0 + read_chunk(b0, buf@)) + reader.rest =~= c0 + (read_chunk(b0, buf@) + reader.rest)); }
                     match res {
@@ -283,7 +283,7 @@ where
                             return Err(MonorailError::from(e));
                         }
                     } }
-_ => { let _ = interval.tick().await; reader.read_until_dropped(b'\n', &mut buf, Tracked(w));
+_ => { let _ = interval.tick().await; reader.read_until_dropped(b'\n', &mut buf);
 @                    assert(k0 + flat(bufs@) + buf@ =~= s0 + reader.consumed) by { assert(k0 + flat(bufs@) + (b0 + read_chunk(b0, buf@)) =~= (k0 + flat(bufs@) + b0) + read_chunk(b0, buf@)); }
 @                    assert(reader.consumed + reader.rest =~= stream) by { assert((c0 + read_chunk(b0, buf@)) + reader.rest =~= c0 + (read_chunk(b0, buf@) + reader.rest)); }
                     process_bufs(&header, bufs, &compressor_client, &mut log_stream_client, false, Tracked(w)).await?;
@@ -291,6 +291,50 @@ _ => { let _ = interval.tick().await; reader.read_until_dropped(b'\n', &mut buf,
 }
         }
     }
+}
+//!end
+
+//!fn src/app/log.rs stream_archive_file_to_stdout rules=R1,R10,R17 props=C08
+fn stream_archive_file_to_stdout(
+    header: &[u8],
+    path: &path::Path,
+    stdout: &mut iox::Stdout,
+ Tracked(w): Tracked<&mut World>) -> ⟦(res: ⟧Result<(), MonorailError>⟦)⟧
+@    requires old(w).fs.dom().contains(path@) ==> true,
+@    ensures
+@        // C08 (`log show`): a non-empty stored log is printed as one header followed by exactly its decoded bytes - whatever the
+@        // line structure, missing trailing newline or binary content; an empty log prints nothing
+@        res is Ok ==> old(w).fs.dom().contains(path@) && final(w).stdout_bytes == old(w).stdout_bytes + (if zstd_dec(old(w).fs[path@]).len() > 0 { header@ + zstd_dec(old(w).fs[path@]) } else { Seq::<u8>::empty() }), // [C08]
+{
+    let file = fs::File::open(path, Tracked(w))?;
+    let reader = iox::BufReader::new(file);
+    let decoder = zstd::stream::read::Decoder::new(reader)?;
+    let mut line_reader = iox::BufReader::new(decoder);
+    let mut line: Vec<u8> = Vec::new();
+    let mut wrote_header = false;
+@    let ghost content = zstd_dec(old(w).fs[path@]);
+@    let ghost out0 = old(w).stdout_bytes;
+    while line_reader.read_until(b'\n', &mut line)? > 0
+@        invariant
+@            content == zstd_dec(old(w).fs[path@]), out0 == old(w).stdout_bytes, old(w).fs.dom().contains(path@),
+@            line@.len() == 0,
+@            wrote_header <==> line_reader.consumed.len() > 0,
+@            line_reader.consumed + line_reader.rest =~= content,
+@            w.stdout_bytes =~= out0 + (if line_reader.consumed.len() > 0 { header@ + line_reader.consumed } else { Seq::<u8>::empty() }),
+@        ensures
+@            line_reader.rest.len() == 0,
+@        decreases line_reader.rest.len(),
+    {
+        if !wrote_header {
+            stdout.write_all(header, Tracked(w))?;
+            wrote_header = true;
+        }
+        stdout.write_all(&line, Tracked(w))?;
+        line.clear();
+    }
+@    assert(line_reader.consumed =~= content);
+
+    Ok(())
 }
 //!end
 } // verus!
